@@ -6,6 +6,9 @@ use yata::core::ValueType;
 /// unit roundoff scale of the implementation's arithmetic
 pub const U: f64 = ValueType::EPSILON as f64;
 
+/// spacing of the subnormal range of `ValueType`: one rounded operation on subnormal values errs by up to half of it
+pub const ETA: f64 = ValueType::from_bits(1) as f64;
+
 #[derive(Clone, Copy, Debug, PartialEq)]
 pub struct T {
 	pub v: f64,
